@@ -234,6 +234,18 @@ def _run(ctx):
                                       "clamp_adjustment(current, _, config.max_freq_offset)" % s, where=where)
     check_servo6(rep, prog, kal)
     check_finite(rep, prog)
+    rep.rule("SERVO-9", "leaving Slave/Faulty (or entering Faulty) replaces the port's filter and demobilizes the old one - "
+                        "shared with C08 ROLE-4", floor=1)
+    try:
+        from rules import c08 as _c08
+        sf_ = prog.one(name="set_forced_port_state", self_name="Port", crate="statime-lib")
+        _sub = type("R", (), {})()
+        class _Rep:
+            def ok(self, rid, *a, **k): rep.ok("SERVO-9", *a, **k)
+            def violation(self, rid, *a, **k): rep.violation("SERVO-9", *a, **k)
+        _c08.check_role4(_Rep(), prog, sf_)
+    except AnchorMissing as e:
+        rep.anchor_missing("SERVO-9", str(e))
     allowed = {"change_frequency", "ensure_freq_init", "step"}
     for name, lst in sorted(callers.items()):
         for (b, bi, t, cal) in lst:
